@@ -527,6 +527,11 @@ func calleeFunc(info *types.Info, call *ast.CallExpr) *types.Func {
 		if f, ok := o.(*types.Func); ok {
 			return f
 		}
+		// a local that holds a method value or a function and nothing else (store := state.Set; store(…)): the call
+		// is a call of that method (owners.go)
+		if lv, ok := localFuncValues[o]; ok {
+			return lv.fn
+		}
 	}
 	return nil
 }
